@@ -1,4 +1,4 @@
-import Witverif.Async.Waitable
+import Witverif.Async.WaitableSys
 /-! Helper definitions and lemmas for C18 (`Props/C18.lean`): one `WaitableOperation` — for an
 ARBITRARY operation kind `Ops` (stream/future read/write, subtask) — together with the executors'
 maps as a labelled transition system (`GSys`), the registration invariant `RegInv`, and its
@@ -7,45 +7,6 @@ namespace Witverif.Async
 open Witverif.Generated
 
 variable {S P R C : Type}
-
-/-- what the generic machine needs from an operation: the waitable of an in-progress state does not
-change when a status update leaves it in progress (the `WaitableOp` trait's documented obligation
-"`in_progress_waitable` must always return the same value") -/
-def Ops.Stable (ops : Ops S P R C) : Prop :=
-  ∀ p c p' evs, ops.update p c = .ok (.inr p') evs → ops.waitable p' = ops.waitable p
-
-/-- One `WaitableOperation` and the executors' maps, as far as this operation is concerned. -/
-structure GSys (S P : Type) where
-  w : WOp S P
-  regs : List (Nat × Nat)
-  gone : Bool                -- the operation has been dropped
-
-inductive GLabel
-  | poll (task : Nat) (ans : Nat)      -- polled while `task` is the current task
-  | deliver (code : Nat)               -- the executor holding the registration delivers an event
-  | drop (task : Nat) (ans : Nat)      -- dropped while `task` is the current task
-deriving DecidableEq, Repr
-
-/-- the waitable an in-progress operation waits on -/
-def GSys.waitable (ops : Ops S P R C) (g : GSys S P) : Option Nat :=
-  match g.w.state with
-  | .inProgress p => ops.waitable p
-  | _ => none
-
-def GSys.step (ops : Ops S P R C) (dropC : C → List Ev) (v : Nat) (g : GSys S P) : GLabel → Step (GSys S P)
-  | .poll t ans =>
-    (pollComplete ops g.w ⟨some ⟨t, v⟩, g.regs⟩ ans).bind fun (_, w', e') => .ok ⟨w', e'.regs, false⟩ []
-  | .deliver code =>
-    match g.waitable ops with
-    | none => .panic "no waitable" []
-    | some h =>
-      match g.regs.find? (·.2 == h) with
-      | none => .panic "delivery without a registration" []
-      | some (tp, _) =>
-        (Step.emit [.dlv h code]).bind fun _ =>
-          (cabiWake g.w code).bind fun w' => .ok ⟨w', g.regs.filter (· != (tp, h)), false⟩ []
-  | .drop t ans =>
-    (dropOp ops dropC g.w ⟨some ⟨t, v⟩, g.regs⟩ ans).bind fun e' => .ok ⟨g.w, e'.regs, true⟩ []
 
 /-- Registration invariant (DESIGN §7 C18, Inv1/Inv4/Inv5 as a state invariant).  `t0`: for the v1
 ABI (which cannot clone a task) the operation has to stay in task `t0`. -/
